@@ -76,7 +76,8 @@ def generate(rng, tier, cls):
         prod = {'id': 'P1', 'kind': 'raw', 'file': 'f1',
                 'foreign': gen.gen_foreign(rng, meta_le=False,
                                            p_main_none=0.08,
-                                           unknown_labels=True)}
+                                           unknown_labels=True,
+                                           nonfinite=True)}
 
     return {'actors': [prod], 'schedule': [], 'faults': [],
             'via': rng.choice(['from_stream', 'from_stream', 'from_bytes',
